@@ -661,6 +661,32 @@ func migVariants(g *fw.Gen, addr []byte) {
 		// another byte value: valid group, wrong checksum
 		emitS(g, "migparse", s[:at]+b1t6([]byte{full[k] + byte(1+r.Intn(255))})+s[at+2:])
 	}
+	// two faults at once: an invalid group in the address part, and a checksum part that matches what a decoder
+	// may have in hand after the failed decode (nothing, zeros, the bytes before the fault, those padded with
+	// zeros, the address with the faulty byte taken modulo 256) — an error that is overwritten or ignored then
+	// meets a "matching" checksum
+	{
+		k := r.Intn(32)
+		at := 8 + 2*k
+		var bad string
+		var wrapped byte
+		for {
+			t1, t2 := r.Intn(27)-13, r.Intn(27)-13
+			if w := t1 + 27*t2; w < -128 || w > 127 {
+				bad = string([]byte{tryteOf(t1), tryteOf(t2)})
+				wrapped = byte(w)
+				break
+			}
+		}
+		wr := append([]byte(nil), addr...)
+		wr[k] = wrapped
+		zeroed := append([]byte(nil), addr...)
+		zeroed[k] = 0
+		for _, x := range [][]byte{nil, make([]byte, 32), addr[:k], append(append([]byte(nil), addr[:k]...), make([]byte, 32-k)...), wr, zeroed, addr[:k+1]} {
+			h := blake2b.Sum256(x)
+			emitS(g, "migparse", s[:at]+bad+s[at+2:72]+b1t6(h[:4])+migSuffix)
+		}
+	}
 	// checksum of another address
 	other := append([]byte(nil), addr...)
 	other[r.Intn(32)] ^= 1 << uint(r.Intn(8))
